@@ -37,7 +37,7 @@ type Sched struct {
 	Viol     *Violation
 
 	curLibSite int32
-	schedHash   uint64
+	schedHash  uint64
 }
 
 func NewSched(sc *Scenario, envs []*Env, st *Stats, maxYields uint64) *Sched {
